@@ -36,6 +36,8 @@ def units_for(pid):
         tags = set()
         for m in re.finditer(r'^\s*//@\s*(?:default|requires|ensures|lemma|loop\s+\d+\s+\w+)\s*\[([^\]]*)\]', txt, re.M):
             tags.update(t for t in re.split(r'[ ,]+', m.group(1)) if t)
+        for m in re.finditer(r'^\s*//@assumed\s+\S+\s+\S+(?:\s+for\s+\S+)?\s*\[([^\]]*)\]', txt, re.M):
+            tags.update(t for t in re.split(r'[ ,]+', m.group(1)) if t)
         if pid in tags or pid == 'ALL':
             modes = [False]
             if re.search(r'^\s*//@unit-features\s+benchmark', txt, re.M):
